@@ -164,30 +164,33 @@ pub proof fn lemma_complete(full: Seq<u8>, fs: int, ks: Seq<int>)
     }
 }
 
-// Honest traffic never trips the C06 preconditions: a writer-made DATAFRAG for a buffer made for
-// the same sample satisfies what the parser checks *and* valid_frag (so F1/F2 need hostile or
-// inconsistent input).
+// Honest traffic is never ignored: a writer-made DATAFRAG satisfies what the parser checks and fits
+// a buffer made for its sample (only hostile or inconsistent input meets the "ignored" branch).
 pub proof fn lemma_writer_frag_valid(ab: AssemblyBuffer, df: &DataFrag, full: Seq<u8>, fs: u16, k: int)
     requires
         1 <= fs <= full.len() <= 0xFFFF_FFFF, 1 <= k <= ceil_div(full.len() as int, fs as int),
         writer_frag(df, full, fs as int, k), ab.made_for(full.len() as int, fs as int), df.writer_sn.0 >= 1,
     ensures
-        parsed_ok(df), len_ok(df), ab.valid_frag(df, fs),                              // [frag.lemma.honest_valid]
+        parsed_ok(df), len_ok(df), ab.valid_frag_start(df), ab.consistent(df, fs),     // [frag.lemma.honest_valid]
 {
     lemma_frag_bounds(full.len() as int, fs as int, k);
     assert(1 * (fs as int) == fs) by (nonlinear_arith);
 }
 
 // Link between the contract of FragmentAssembler::new_datafrag and `step`: processing a writer-made
-// DATAFRAG is one `step` on the sample's own (buffer, bitmap); a sample seen for the first time
+// DATAFRAG (assembler's fragment size == writer's; the sample's buffer, if any, has the sample's
+// dimensions) is one `step` on the sample's own (buffer, bitmap); a sample seen for the first time
 // starts from `fresh`.
 pub proof fn lemma_after_is_step(fa: FragmentAssembler, df: &DataFrag, full: Seq<u8>, fs: int, k: int)
-    requires writer_frag(df, full, fs, k), fa.fragment_size == fs,
+    requires
+        writer_frag(df, full, fs, k), fa.fragment_size == fs, 1 <= fs <= full.len(), 1 <= k <= ceil_div(full.len() as int, fs),
+        fa.assembly_buffers@.contains_key(df.writer_sn) ==> fa.before_of(df).0.len() == full.len() && fa.before_of(df).1.len() == ceil_div(full.len() as int, fs),
     ensures
-        fa.same_fs(df),                                                                                  // [frag.lemma.link]
+        fa.fits(df),                                                                                     // [frag.lemma.link]
         (fa.after_buf(df), fa.after_bits(df)) == step(fa.before_of(df), full, fs, k),                    // [frag.lemma.link]
         !fa.assembly_buffers@.contains_key(df.writer_sn) ==> fa.before_of(df) == fresh(full.len() as int, fs),   // [frag.lemma.link]
 {
+    lemma_frag_bounds(full.len() as int, fs, k);
 }
 
 // ---------------------------------------------------------------------------------------------
@@ -307,18 +310,26 @@ pub proof fn lemma_trace(samples: Map<SequenceNumber, Seq<u8>>, fs: int, tr: Seq
 
 // the model step *is* the whole-view postcondition of the real new_datafrag for a writer-made DATAFRAG
 pub proof fn lemma_view_is_m_step(fa: FragmentAssembler, df: &DataFrag, samples: Map<SequenceNumber, Seq<u8>>, fs: int, k: int, pend: Map<SequenceNumber, Seq<int>>)
-    requires writer_frag(df, samples[df.writer_sn], fs, k), fa.fragment_size == fs,
+    requires
+        writer_frag(df, samples[df.writer_sn], fs, k), fa.fragment_size == fs, honest_ev(samples, fs, df.writer_sn, k),
+        m_inv(MState { bufs: fa.view_bufs(), pend }, samples, fs),
     ensures ({
         let st = MState { bufs: fa.view_bufs(), pend };
         let r = m_step(st, samples, fs, df.writer_sn, k);
-        &&& fa.same_fs(df)                                                                    // [frag.lemma.link]
+        &&& fa.fits(df)                                                                       // [frag.lemma.link]
         &&& r.0.bufs =~= (if all_set(fa.after_bits(df)) { fa.view_bufs().remove(df.writer_sn) }
                           else { fa.view_bufs().insert(df.writer_sn, (fa.after_buf(df), fa.after_bits(df))) })   // [frag.lemma.link]
         &&& (r.1.is_some() <==> all_set(fa.after_bits(df)))                                   // [frag.lemma.link]
         &&& (r.1.is_some() ==> r.1.unwrap() == fa.after_buf(df))                              // [frag.lemma.link]
     }),
 {
-    lemma_after_is_step(fa, df, samples[df.writer_sn], fs, k);
+    let sn = df.writer_sn;
+    let full = samples[sn];
     let st = MState { bufs: fa.view_bufs(), pend };
-    assert(m_before(st, samples[df.writer_sn], fs, df.writer_sn) == fa.before_of(df));
+    assert(m_before(st, full, fs, sn) == fa.before_of(df));
+    if fa.assembly_buffers@.contains_key(sn) {
+        assert(st.bufs.contains_key(sn));
+        lemma_reassembly(full, fs, st.pend[sn]);
+    }
+    lemma_after_is_step(fa, df, full, fs, k);
 }
